@@ -436,6 +436,54 @@ def _check_arglist(ctx, model):
            "parse_arglist does not return (tuple(<positional>), <keyword>)")
 
 
+def _judge_boolop(fn):
+    """interpretive judge: map_BoolOp on 1..4 values; the result, with nested
+    nodes of the same operator flattened (and/or are associative, including
+    which operand is evaluated and returned), is the table's node over all
+    mapped values in order.  -> witnesses"""
+    from ..absint import Interp, Opaque, Raised
+    wit = []
+    for n in range(1, 5):
+        vals = [("v", i) for i in range(n)]
+
+        class Mp:
+            pass
+        mp = Mp()
+
+        class Node:
+            def __init__(self, children):
+                self.children = tuple(children)
+
+        def flat(x):
+            if isinstance(x, Node):
+                out = []
+                for c in x.children:
+                    out.extend(flat(c) if isinstance(c, Node) else [c])
+                return out
+            return [x]
+
+        def attrs(it, node, base, attr):
+            if base is mp and attr == "rec":
+                return lambda v, *a, **k: ("m", v[1])
+            if base is mp and attr == "bool_op_map":
+                return {"OPTYPE": lambda children: Node(children)}
+            if base == "NODE" and attr == "values":
+                return list(vals)
+            if base == "NODE" and attr == "op":
+                return "OP"
+            return Opaque(ast.unparse(node))
+        it = Interp(calls={"type": lambda it_, n_, a, k: "OPTYPE"},
+                    attrs=attrs, max_steps=5000)
+        try:
+            got = it.call_function(fn, [mp, "NODE"], {})
+        except Raised as r:
+            wit.append(f"{n} values: raises at line {r.node.lineno}")
+            continue
+        if not isinstance(got, Node) or flat(got) != [("m", i) for i in range(n)]:
+            wit.append(f"{n} values: {got!r}")
+    return wit
+
+
 def _arglist_trailing_comma(ctx, model):
     """Python allows one comma after the last argument of a call.  Token-level
     path rule over a general round of the argument loop: some error-free way
@@ -710,6 +758,11 @@ def check_importer(ctx, model, prop, parser=None):
                       and arg[2] == ("rec", ("elem", ("attr", NODE, "values")),
                                      True, ())
                       and arg[3] == ("attr", NODE, "values") and not arg[4])
+            if not ok:
+                try:
+                    ok = not _judge_boolop(fn)
+                except AnalysisError:
+                    ok = False
             ctx.ob("T/importer/map_BoolOp", ok, owner.module.loc(fn),
                    "table[type(op)](tuple of all mapped values, in order)" if ok
                    else "map_BoolOp does not build the table's node over every "
